@@ -69,6 +69,16 @@ check("C08", "model_checking",
       "Trusted: TLC, the accessor's listing. Heights capped at 40 (sound for underflow). Inputs are sampled; paths per input are exhaustive.",
       "TLA+ all-paths model checking (TLC) of real compiler output + TLC trace validation of recorded VM dispatch steps", "DESIGN.md section 4 C08")
 
+check("C02", "model_checking",
+      "spec/Lang.tla + Values.tla are a definitional semantics of the documented core (numbers, strings, templates, arrays, dicts, ranges, "
+      "indexing/slicing, variables, computed values, all operators, if/while/break/continue, functions, built-ins, dice in min/max mode "
+      "and with forced faces) over ASTs, with an explicit heap (aliasing) and frame stack; spec/Unparse.tla is the published grammar seen "
+      "from the AST side (minimal parentheses, asymmetric where the grammar is).  TLC evaluates both for an exhaustive small scope (operator "
+      "tables over an 18-literal vocabulary, every ordered pair of binary operators in both nestings) and for generated histories of programs "
+      "sharing one VM; the harness writes the tokens with random legal whitespace, runs them on the real VM and compares value-or-error and all variables after every program.",
+      "Trusted: token joiner, literal escaper, value projection, TLC. Out of domain (dropped, counted): |ints| > 2^20, non-dyadic floats, depth > 6, multi-key dict printing.",
+      "TLA+ definitional semantics evaluated by TLC as oracle + replay on the real VM (exhaustive small scope and random histories)", "DESIGN.md section 4 C02")
+
 NOT_YET = "check under construction in this build phase (planned in DESIGN.md section 4); not yet claimed"
 
 m = {
